@@ -435,15 +435,28 @@ def _string_escape_shape(s: RaiseSite) -> Optional[str]:
     raw = facts_at(n, fn, kill=False)
     loop_test = None
     bs_test = False
+    def is_cur(e: ast.AST, at: ast.AST) -> bool:
+        """e denotes s[i] as of the test `at`: the subscript itself, or a local bound to it with no change of i in between"""
+        if same(e, n):
+            return True
+        if isinstance(e, ast.Name) and isinstance(n.slice, ast.Name):
+            binds = [a for a in ast.walk(fn) if isinstance(a, (ast.Assign, ast.AnnAssign)) and a.value is not None and any(isinstance(t_, ast.Name) and t_.id == e.id for t_ in (a.targets if isinstance(a, ast.Assign) else [a.target]))]
+            before = [a for a in binds if _end(a) <= (at.lineno, at.col_offset)]
+            if before:
+                last = max(before, key=_end)
+                if same(last.value, n) and not assignments_between(fn, n.slice.id, _end(last), at):
+                    return True
+        return False
+
     for t, truth in raw:
         if truth and isinstance(t, ast.Compare) and len(t.ops) == 1:
             if isinstance(t.ops[0], ast.Lt) and same(t.left, n.slice) and src_of(t.comparators[0]) == f"len({src_of(n.value)})":
                 loop_test = t
-            if isinstance(t.ops[0], ast.Eq) and same(t.left, n) and isinstance(t.comparators[0], ast.Constant) and t.comparators[0].value == "\\":
+            if isinstance(t.ops[0], ast.Eq) and is_cur(t.left, t) and isinstance(t.comparators[0], ast.Constant) and t.comparators[0].value == "\\":
                 bs_test = True
     for t, truth in raw:
         # else-branch of `if s[i] != '\\'`
-        if (not truth) and isinstance(t, ast.Compare) and len(t.ops) == 1 and isinstance(t.ops[0], ast.NotEq) and same(t.left, n) and isinstance(t.comparators[0], ast.Constant) and t.comparators[0].value == "\\":
+        if (not truth) and isinstance(t, ast.Compare) and len(t.ops) == 1 and isinstance(t.ops[0], ast.NotEq) and is_cur(t.left, t) and isinstance(t.comparators[0], ast.Constant) and t.comparators[0].value == "\\":
             bs_test = True
     if loop_test is None or not bs_test or not isinstance(n.slice, ast.Name):
         return None
@@ -1033,7 +1046,9 @@ def main_table(repo: Repo) -> Dict[str, Any]:
     def build() -> Dict[str, Any]:
         m = get_model(repo)
         fi = m.func("bitproto/_main.py", "main")
-        flow = PyFlow(funcs={}, noreturn=("fatal", "os._exit", "sys.exit"), follow_handlers=True, havoc_on=(), pure=("str",))
+        mod_ = m.mods[fi.rel]
+        helpers = {k: v.node for k, v in mod_.funcs.items() if k not in ("main", "run_bitproto", "build_arg_parser", "fatal", "parse", "lint", "render")}
+        flow = PyFlow(funcs=helpers, noreturn=("fatal", "os._exit", "sys.exit"), follow_handlers=True, havoc_on=(), pure=("str",), max_depth=6)
         paths = flow.run(fi.node)
         parse_err, normal, render_err = [], [], []
         for p in paths:
@@ -1364,23 +1379,62 @@ def a8(repo: Repo) -> RuleResult:
                 if not pushed:
                     res.bad(Finding("A8", PARSER, n.lineno, f"Parser.{name}", f"{cname}(...)", "the constructed definition is never pushed into a scope (its on-push validators do not run and it cannot be referenced)", tag=f"{name}:{cname}:not-pushed"))
 
-    # (g) maintain_filepath: push in try, pop in finally
-    for rel_sfx, cn in (("bitproto/parser.py", "Parser"), ("bitproto/lexer.py", "Lexer")):
-        try:
-            mf = m.func(rel_sfx, f"{cn}.maintain_filepath").node
-        except Inconclusive as e:
-            res.unsure(f"A8: {e}")
-            continue
-        res.inst(part="filepath", where=f"{cn}.maintain_filepath")
-        trs = [n for n in ast.walk(mf) if isinstance(n, ast.Try)]
-        ok = len(trs) == 1 and "push_filepath" in " ".join(src_of(s) for s in trs[0].body) and "pop_filepath" in " ".join(src_of(s) for s in trs[0].finalbody)
-        if not ok:
-            res.bad(Finding("A8", f"compiler/{rel_sfx}", mf.lineno, f"{cn}.maintain_filepath", "", "the file path is not pushed in try and popped in finally: after an error in an imported file the stack of the importer is left wrong", tag=f"{cn}:maintain_filepath"))
+    # (g) the ply parser runs with the file pushed on both stacks (lexer's and parser's), and both are
+    # popped again on every exit: either `with X.maintain_filepath(f)` around the call, X.maintain_filepath
+    # being push / yield / finally pop, or an explicit try ... finally X.pop_filepath() with the push before the call
     ps = m.func("bitproto/parser.py", "Parser.parse_string").node
     res.inst(part="filepath", where="Parser.parse_string")
     pc = [n for n in ast.walk(ps) if isinstance(n, ast.Call) and src_of(n.func) == "self.parser.parse"]
-    if len(pc) != 1 or sum(1 for w in _enclosing_all(pc[0], ast.With) if "maintain_filepath" in src_of(w.items[0].context_expr)) < 2:
-        res.bad(Finding("A8", PARSER, ps.lineno, "Parser.parse_string", "", "the ply parser is not run inside both maintain_filepath contexts (lexer and parser)", tag="parse_string:with"))
+    alias: Dict[str, str] = {}
+    for n in ast.walk(ps):
+        if isinstance(n, ast.Assign) and len(n.targets) == 1 and isinstance(n.targets[0], ast.Name) and isinstance(n.value, (ast.Attribute, ast.Name)):
+            alias[n.targets[0].id] = src_of(n.value)
+
+    def recv_of(e: ast.AST) -> str:
+        t = src_of(e)
+        return alias.get(t, t)
+
+    def cm_ok(owner: str) -> Optional[bool]:
+        cn, rel_sfx = ("Lexer", "bitproto/lexer.py") if owner == "self.lexer" else ("Parser", "bitproto/parser.py")
+        try:
+            mf = m.func(rel_sfx, f"{cn}.maintain_filepath").node
+        except Inconclusive:
+            return None
+        trs = [n for n in ast.walk(mf) if isinstance(n, ast.Try)]
+        good = len(trs) == 1 and any(isinstance(x, ast.Call) and src_of(x.func) == "self.push_filepath" for st_ in trs[0].body for x in ast.walk(st_)) and any(isinstance(x, (ast.Yield, ast.YieldFrom)) for st_ in trs[0].body for x in ast.walk(st_)) and any(isinstance(x, ast.Call) and src_of(x.func) == "self.pop_filepath" for st_ in trs[0].finalbody for x in ast.walk(st_))
+        if not good:
+            res.bad(Finding("A8", f"compiler/{rel_sfx}", mf.lineno, f"{cn}.maintain_filepath", "", "the file path is not pushed in try and popped in finally: after an error in an imported file the stack of the importer is left wrong", tag=f"{cn}:maintain_filepath"))
+        return good
+
+    covered: Set[str] = set()
+    if len(pc) == 1:
+        call = pc[0]
+        for w in _enclosing_all(call, ast.With):
+            for it_ in w.items:
+                ce = it_.context_expr
+                if isinstance(ce, ast.Call) and isinstance(ce.func, ast.Attribute) and ce.func.attr == "maintain_filepath":
+                    owner = recv_of(ce.func.value)
+                    if cm_ok(owner):
+                        covered.add(owner)
+        for t in _enclosing_all(call, ast.Try):
+            if not any(call is x for st_ in t.body for x in ast.walk(st_)):
+                continue
+            pops = [recv_of(x.func.value) for st_ in t.finalbody for x in ast.walk(st_) if isinstance(x, ast.Call) and isinstance(x.func, ast.Attribute) and x.func.attr == "pop_filepath"]
+            idx = next(i for i, st_ in enumerate(t.body) if any(call is x for x in ast.walk(st_)))
+            before = list(t.body[:idx])
+            # a push immediately in front of the try statement counts as well
+            par_ = parent(t)
+            for fld in ("body", "orelse", "finalbody"):
+                sib = getattr(par_, fld, None)
+                if isinstance(sib, list) and t in sib and sib.index(t) > 0:
+                    before.append(sib[sib.index(t) - 1])
+            pushes = [recv_of(x.func.value) for st_ in before for x in ast.walk(st_) if isinstance(x, ast.Call) and isinstance(x.func, ast.Attribute) and x.func.attr == "push_filepath"]
+            for r_ in pops:
+                if r_ in pushes:
+                    covered.add(r_)
+    res.inst(part="filepath", where="Parser.parse_string", bracketed_by=sorted(covered))
+    if len(pc) != 1 or not {"self", "self.lexer"} <= covered:
+        res.bad(Finding("A8", PARSER, ps.lineno, "Parser.parse_string", str(sorted(covered)), "the ply parser is not run with the file pushed on (and, on every exit, popped from) both the lexer's and the parser's file stack", tag="parse_string:with"))
     return res
 
 
@@ -1411,6 +1465,9 @@ def a9(repo: Repo) -> RuleResult:
             if isinstance(n, ast.Call) and isinstance(n.func, ast.Name) and n.func.id == "Parser":
                 n_ctor += 1
                 kws = {k.arg: k.value for k in n.keywords}
+                init_params = [a.arg for a in m.func("bitproto/parser.py", "Parser.__init__").node.args.args][1:]
+                for pn_, av_ in zip(init_params, n.args):
+                    kws.setdefault(pn_, av_)
                 v = src_of(kws["traditional_mode"]) if "traditional_mode" in kws else None
                 res.inst(part="parser-ctor", where=fi.qual, traditional_mode=v)
                 want = "self.traditional_mode" if fi.cls is not None else "traditional_mode"
@@ -1463,6 +1520,100 @@ def a9(repo: Repo) -> RuleResult:
             res.unsure("A9: main: parse / render calls not found on the normal paths")
     except Inconclusive as e:
         res.unsure(f"A9: main: {e}")
+    # the command line layer: what main() receives for each flag
+    try:
+        rb = m.func("bitproto/_main.py", "run_bitproto")
+        cl = PyFlow(funcs={}, havoc_on=(), primitives=("main",))
+        WANT = {"lang": "language", "outdir": "outdir", "disable_linter": "disable_linter", "check": "check", "enable_optimize": "enable_optimize", "endian": "endian"}
+        mparams = [a.arg for a in T["fn"].node.args.args]
+        n_main = 0
+        for p_ in cl.run(rb.node):
+            for e in p_.effects:
+                if e.kind != "call" or e.name != "main":
+                    continue
+                n_main += 1
+                got = dict(zip(mparams, e.args))
+                got.update(e.kw)
+                for k_, attr in WANT.items():
+                    v = got.get(k_)
+                    res.inst(part="cli", flag=k_, value=show(v) if v is not None else None)
+                    if v is None or not show(v).endswith(f".{attr}"):
+                        f = Finding("A9", rb.rel, rb.node.lineno, "run_bitproto", show(v) if v is not None else "", f"main() receives {k_}={show(v) if v is not None else None}, not the command line's `{attr}`", tag=f"cli:{k_}")
+                        res.bad(f)
+        if n_main == 0:
+            res.unsure("A9: run_bitproto does not call main()")
+        # -F: the list of names is the comma separated parts, each stripped of blanks
+        fm_vals: List[ast.AST] = []
+        for n in ast.walk(rb.node):
+            if isinstance(n, (ast.Assign, ast.AnnAssign)) and n.value is not None:
+                tgs = n.targets if isinstance(n, ast.Assign) else [n.target]
+                if any(isinstance(t_, ast.Name) and t_.id == "filter_messages" for t_ in tgs) and not (isinstance(n.value, ast.Constant) and n.value.value is None):
+                    fm_vals.append(n.value)
+            if isinstance(n, ast.Call) and isinstance(n.func, ast.Name) and n.func.id == "main":
+                for kw_ in n.keywords:
+                    if kw_.arg == "filter_messages" and not isinstance(kw_.value, ast.Name):
+                        fm_vals.append(kw_.value)
+        if not fm_vals:
+            res.unsure("A9: run_bitproto: the value of filter_messages was not found")
+
+        def _strips(e_: ast.AST, var: str) -> Optional[bool]:
+            if isinstance(e_, ast.Call) and isinstance(e_.func, ast.Attribute) and e_.func.attr == "strip" and isinstance(e_.func.value, ast.Name) and e_.func.value.id == var and not e_.args:
+                return True
+            if isinstance(e_, ast.Name) and e_.id == var:
+                return False
+            return None
+
+        # a helper that builds the list: its non-None returns are what is judged
+        mod_rb = m.mods[rb.rel]
+        expanded: List[ast.AST] = []
+        for v_ in fm_vals:
+            if isinstance(v_, ast.Call) and isinstance(v_.func, ast.Name) and v_.func.id in mod_rb.funcs and len(v_.args) == 1 and src_of(v_.args[0]).endswith(".filter_messages"):
+                hf = mod_rb.funcs[v_.func.id].node
+                hp = hf.args.args[0].arg
+                import copy as _copy
+
+                class _R(ast.NodeTransformer):
+                    def visit_Name(self, n_: ast.Name) -> Any:
+                        return _copy.deepcopy(v_.args[0]) if n_.id == hp and isinstance(n_.ctx, ast.Load) else n_
+
+                for r_ in ast.walk(hf):
+                    if isinstance(r_, ast.Return) and r_.value is not None and not (isinstance(r_.value, ast.Constant) and r_.value.value is None):
+                        nv = _R().visit(_copy.deepcopy(r_.value))
+                        ast.copy_location(nv, v_)
+                        ast.fix_missing_locations(nv)
+                        expanded.append(nv)
+            else:
+                expanded.append(v_)
+        fm_vals = expanded
+        for v_ in fm_vals:
+            e_ = v_
+            while isinstance(e_, ast.Call) and isinstance(e_.func, ast.Name) and e_.func.id in ("list", "tuple", "sorted") and len(e_.args) == 1:
+                e_ = e_.args[0]
+            stripped: Optional[bool] = None
+            src_: Optional[ast.AST] = None
+            drops = False
+            if isinstance(e_, ast.Call) and isinstance(e_.func, ast.Name) and e_.func.id == "map" and len(e_.args) == 2:
+                fnx, src_ = e_.args
+                if isinstance(fnx, ast.Lambda) and len(fnx.args.args) == 1:
+                    stripped = _strips(fnx.body, fnx.args.args[0].arg)
+                elif src_of(fnx) == "str.strip":
+                    stripped = True
+            elif isinstance(e_, (ast.ListComp, ast.GeneratorExp)) and len(e_.generators) == 1 and isinstance(e_.generators[0].target, ast.Name):
+                g_ = e_.generators[0]
+                stripped = _strips(e_.elt, g_.target.id)
+                src_ = g_.iter
+                drops = bool(g_.ifs)
+            res.inst(part="cli", flag="filter_messages", value=src_of(v_), stripped=stripped)
+            src_ok = src_ is not None and isinstance(src_, ast.Call) and isinstance(src_.func, ast.Attribute) and src_.func.attr == "split" and src_of(src_.func.value).endswith(".filter_messages") and len(src_.args) == 1 and isinstance(src_.args[0], ast.Constant) and src_.args[0].value == ","
+            if stripped is False and src_ok:
+                f = Finding("A9", rb.rel, v_.lineno, "run_bitproto", src_of(v_), "the -F names are taken from the comma separated list without stripping blanks: `-F \"A, B\"` selects ` B`, which matches no message, so B's encoder / decoder silently disappear", witness='bitproto c x.bitproto -O -F "Alpha, Gamma"', tag="cli:filter_messages:strip")
+                res.bad(f)
+            elif stripped is not True or not src_ok:
+                res.unsure(f"A9: run_bitproto: `{src_of(v_)}` is not a recognised way to build the -F list")
+            elif drops:
+                res.unsure(f"A9: run_bitproto: `{src_of(v_)}` drops items of the -F list: whether `-F ,` stays a (non-matching) filter is not decided")
+    except Inconclusive as e:
+        res.unsure(f"A9: run_bitproto: {e}")
     # render() -> renderer_cls(...) forwards them
     rfi = m.func("renderer/__init__.py", "render")
     flow = PyFlow(funcs={}, havoc_on=())
@@ -1601,37 +1752,53 @@ def a11(repo: Repo) -> RuleResult:
     if lf is None:
         res.unsure("A11: Linter.lint vanished")
     else:
-        txt = src_of(lf.node)
-        res.inst(rule="Linter.lint", text=short(txt, 160))
-        if "recursive=True" not in txt or "bound=proto" not in txt:
-            res.bad(Finding("A11", lm.rel, lf.node.lineno, "Linter.lint", "", "definitions are not collected with recursive=True, bound=proto: nested definitions are skipped or imported files are linted under the wrong file", tag="lint:filter"))
-        # the returned counter grows by one exactly on the loop paths that emit a warning
-        from .normal import C as K, V
+        from .grammar import inline_generator_loops
+        from .normal import C as K, V, show
         from .pyflow import PyFlow
 
-        rets = [n for n in ast.walk(lf.node) if isinstance(n, ast.Return) and isinstance(n.value, ast.Name)]
+        lmeths = {k: v.node for k, v in linter.methods.items()}
+        lint_node = inline_generator_loops(lf.node, lmeths)
+        res.inst(rule="Linter.lint", text=short(src_of(lf.node), 160), generator_inlined=lint_node is not lf.node)
+        rets = [n for n in ast.walk(lint_node) if isinstance(n, ast.Return) and isinstance(n.value, ast.Name)]
         counter = rets[0].value.id if len(rets) == 1 else None
         if counter is None:
             res.bad(Finding("A11", lm.rel, lf.node.lineno, "Linter.lint", "", "lint() does not return the warning count", tag="lint:return"))
         else:
             try:
-                flow = PyFlow(funcs={}, methods={k: v.node for k, v in linter.methods.items()}, havoc_on=(), inline_filter=lambda n_, f_: n_.startswith("_"))
+                flow = PyFlow(funcs={}, methods=lmeths, havoc_on=(), inline_filter=lambda n_, f_: n_ not in ("rules", "filter_rules", "lint"))
                 leafs: List[Tuple[Any, str]] = []
+                filters: List[Any] = []
 
                 def walk_loops(p_: Any) -> None:
                     for e in p_.effects:
+                        if e.kind == "call" and e.name == "filter":
+                            filters.append(e)
                         if e.kind == "loop":
                             subs = e.sub or []
                             inner = [sp for sp in subs if any(x.kind == "loop" for x in sp.effects)]
                             for sp in subs:
+                                for x in sp.effects:
+                                    if x.kind == "call" and x.name == "filter":
+                                        filters.append(x)
                                 if sp in inner:
                                     walk_loops(sp)
                                 elif any(x.kind == "call" and x.name == "check" for x in sp.effects) or any(x.kind == "call" and x.name == "warning" for x in sp.effects):
                                     leafs.append((sp, e.op))
 
-                top = flow.run(lf.node)
+                prm_ = [a_.arg for a_ in lf.node.args.args]
+                top = flow.run(lint_node, {prm_[0]: V("self"), prm_[1]: V("proto")} if len(prm_) > 1 else None)
                 for p_ in top:
                     walk_loops(p_)
+                # what is linted: the definitions of this file, at every depth
+                okf = bool(filters)
+                for fe in filters:
+                    rec_, bnd_ = fe.kw.get("recursive"), fe.kw.get("bound")
+                    if rec_ is None or rec_.const_value() != 1 or bnd_ is None or show(bnd_) != "proto" or fe.recv is None or show(fe.recv) != "proto":
+                        okf = False
+                res.inst(rule="Linter.lint", filter_calls=len(filters), ok=okf)
+                if not okf:
+                    res.bad(Finding("A11", lm.rel, lf.node.lineno, "Linter.lint", "", "definitions are not collected with recursive=True, bound=proto: nested definitions are skipped or imported files are linted under the wrong file", tag="lint:filter"))
+
                 ok = bool(leafs)
                 why = "no loop path calls rule.check" if not leafs else ""
                 for sp, tag in leafs:
